@@ -46,6 +46,46 @@ theorem report_is_function_of_manifest (sem : Sem) (cfg : Cfg) (hne : cfg.scanne
   obtain ⟨hg, _⟩ := good_run sem ops { cfg := cfg } (good_empty sem cfg hne) ha
   exact (index_ff_result sem o cfg m _ hff hg).2.1
 
+/-! ## Deletion (`Libindex.DeleteManifests`) -/
+
+/-- A deleted manifest is forgotten — not persisted, recorded as scanned by no
+    scanner, no stored report — so the next Index of it is a full run
+    (`history_independent_partial` covers histories with deletions: `Admissible`
+    admits every `delete`). -/
+theorem delete_forgets_manifest (sem : Sem) (ops : List Op) (m : Manifest) :
+    let st := (Sm.run (step sem) {} ops).st
+    m ∉ (st.deleteManifest m).manifests ∧ (∀ s, (m, s) ∉ (st.deleteManifest m).scannedManifest) ∧
+    (m ∈ st.manifests → (st.deleteManifest m).report? m = none) := by
+  intro st
+  have hi : Inv sem st :=
+    Sm.invariant_run (step := step sem) (Inv := fun (wd : World) => Inv sem wd.st)
+      (fun (wd : World) op h => by
+        cases op with
+        | config cfg => exact h
+        | index m o d => exact (index_spec sem o wd.cfg m wd.st d h).inv
+        | delete ms => exact Store.inv_deleteManifests ms h)
+      ops ({} : World) (inv_empty sem)
+  exact Store.deleteManifest_forgets hi m
+
+/-- Deleting `m` leaves every other manifest's report, scanned marks, manifest
+    row and search-index rows as they were. -/
+theorem delete_keeps_other_manifests (st : Store) (m m' : Manifest) (hne : m' ≠ m) :
+    (st.deleteManifest m).report? m' = st.report? m' ∧
+    (∀ s, (m', s) ∈ (st.deleteManifest m).scannedManifest ↔ (m', s) ∈ st.scannedManifest) ∧
+    (m' ∈ (st.deleteManifest m).manifests ↔ m' ∈ st.manifests) ∧
+    (∀ b, (m', b) ∈ (st.deleteManifest m).index ↔ (m', b) ∈ st.index) :=
+  Store.deleteManifest_frame st m m' hne
+
+/-- A layer that a remaining manifest refers to keeps its scanned marks and its
+    artifacts (so it is not scanned again), and deletion never adds a record. -/
+theorem delete_keeps_shared_layers (st : Store) (m m' : Manifest) (l : Layer) (hm' : m' ∈ st.manifests) (hne : m' ≠ m)
+    (hl : l ∈ m') :
+    (∀ s, (l, s) ∈ (st.deleteManifest m).scannedLayer ↔ (l, s) ∈ st.scannedLayer) ∧
+    (∀ s r, (⟨l, s, r⟩ : ArtRow) ∈ (st.deleteManifest m).rows ↔ (⟨l, s, r⟩ : ArtRow) ∈ st.rows) ∧
+    Le (st.deleteManifest m) st :=
+  ⟨(Store.deleteManifest_keeps_used st m m' l hm' hne hl).1, (Store.deleteManifest_keeps_used st m m' l hm' hne hl).2,
+   Store.deleteManifest_le st m⟩
+
 /-! ## Re-index is a lookup -/
 
 /-- Re-submitting a manifest that is recorded as indexed by all configured
@@ -82,9 +122,11 @@ theorem new_scanner_rescans_only_new (sem : Sem) (o : Oracle) (cfg cfg' : Cfg) (
   exact (index_spec sem o cfg' m st d hi).scans (l, s) hx (hi.manifestLayers m s hms l hl)
 
 /-- Over any fault-free history (any manifests, any reconfigurations to
-    non-empty scanner sets) every (layer, scanner version) pair is passed to
-    Scan at most once — repeats of a layer inside a manifest included — and
-    every pair that was scanned is recorded as scanned. -/
+    non-empty scanner sets, any deletions) every (layer, scanner version) pair
+    is passed to Scan at most once — repeats of a layer inside a manifest
+    included — and every pair that was scanned is recorded as scanned. A
+    deletion removes from the log the pairs whose scanned_layer row it removed
+    (the layer was garbage-collected): those may be scanned once more. -/
 theorem scan_at_most_once (sem : Sem) (cfg0 : Cfg) (h0 : cfg0.scanners ≠ []) (ops : List Op) (hff : FFOps ops) :
     (Sm.run (step sem) { cfg := cfg0 } ops).scans.Nodup ∧
     ∀ x, x ∈ (Sm.run (step sem) { cfg := cfg0 } ops).scans → x ∈ (Sm.run (step sem) { cfg := cfg0 } ops).st.scannedLayer := by
